@@ -119,7 +119,7 @@ MODEL_PATHS = [
 ]
 LOAD_ENTRIES = ["load_numpy", "load_tobytes", "load_tofile"]
 # where in the model file the external tensor sits ("all tensors of the model" get the base directory)
-PLACES = ["main_init", "main_attr", "main_attr_list", "sub_init", "sub_attr", "sub2_init", "sub2_attr", "func_attr", "func_sub_attr", "func_sub_init"]
+PLACES = ["main_init", "main_attr", "main_attr_list", "sub_init", "sub_attr", "sub2_init", "sub2_attr", "func_attr", "func_sub_attr", "func_sub_init", "funcdefault", "funcdefault_list"]
 # multi-step histories on ONE tensor object: read, change the world or the base directory, read again
 HIST_LOCS = ["a.bin", "sub/b.bin", "sub/deeper/c.bin", "link_in", "dlink_in/b.bin"]
 HIST_FIRST = ["numpy", "tobytes", "tofile_bytesio", "asarray", "none"]
@@ -347,6 +347,31 @@ def _write_model_file(path: str, loc: str, off: int, ln: int, place: str = "main
         cont = f
     else:
         cont = m.graph
+    if place.startswith("funcdefault"):
+        # the default value of a function attribute (FunctionProto.attribute_proto)
+        f.output.append("fo")
+        nd = f.node.add()
+        nd.op_type, nd.name = "Identity", "fid"
+        nd.input.append("cond")
+        nd.output.append("fo")
+        ap = f.attribute_proto.add()
+        ap.name = "t"
+        if place.endswith("list"):
+            ap.type = onnx.AttributeProto.TENSORS
+            t = ap.tensors.add()
+        else:
+            ap.type = onnx.AttributeProto.TENSOR
+            t = ap.t
+        t.name = "x"
+        t.data_type = onnx.TensorProto.UINT8
+        t.dims.append(ln)
+        t.data_location = onnx.TensorProto.EXTERNAL
+        for k, v in (("location", loc), ("offset", str(off)), ("length", str(ln))):
+            e = t.external_data.add()
+            e.key, e.value = k, v
+        with open(path, "wb") as fh:
+            fh.write(m.SerializeToString())
+        return
     where = place.split("_", 1)[1] if place.startswith("func") else place
     depth = 2 if where.startswith("sub2") else (1 if where.startswith("sub") else 0)
     for d in range(depth):
@@ -393,6 +418,13 @@ def _find_external(model):
     graph(model.graph)
     for f in model.functions.values():
         graph(f)
+        for a in f.attributes.values():
+            if a.is_ref() or a.value is None:
+                continue
+            if a.type == ir.AttributeType.TENSOR and isinstance(a.value, ir.ExternalTensor):
+                found.append(a.value)
+            elif a.type == ir.AttributeType.TENSORS:
+                found.extend(x for x in a.value if isinstance(x, ir.ExternalTensor))
     if len(found) != 1:
         raise AssertionError(f"harness: expected one external tensor in the loaded model, found {len(found)}")
     return found[0]
